@@ -111,6 +111,7 @@ def roundtrip_part(ctx: vlib.Ctx):
     from harness import gen, tycorr, tyoracle
     from mashumaro.codecs.basic import BasicDecoder, BasicEncoder
     ctx.theorems("props/C01_roundtrip.vo", ["C01_roundtrip", "C01_conf_ord_is_conf", "C01_roundtrip_codec", "C01_roundtrip_total"])
+    ctx.coqchk(["VerifProps.C01_roundtrip", "VerifProps.C01_tz"])
     ctx.trusted.append("TyModel.v (cp/pk, cu/uk) tied by vm_compute correspondence; stdlib render/parse pairs are oracle functions whose "
                        "round-trip law is a hypothesis of the theorem restricted to the values present (atoms_ok)")
     ctx.assumptions.append("unions are decided under C11; abstract collections / leaf-typed mapping keys by the oracle only. NamedTuple (as_list form) and "
